@@ -163,6 +163,9 @@ pub fn check(_ctx: &Ctx, input: &Input) -> CaseResult {
                 let mut ch = Ch::new(bytes);
                 if let Some(with) = crate::dwarf::attach_dwarf(&b, &mut ch) {
                     b = with;
+                } else if let Some(with) = crate::dwarf::attach_dwarf_codeless(&b) {
+                    b = with;
+                    out.label("input:dwarf-without-code");
                 }
             }
             if bytes.first().map(|b| b % 5 == 1).unwrap_or(false) {
@@ -194,11 +197,16 @@ pub fn check(_ctx: &Ctx, input: &Input) -> CaseResult {
     }
     let in_prod = producers(&bytes);
 
-    // every other case reaches its configurations through a setter history
+    // every other case reaches its configurations through a setter history;
+    // the order of the DWARF and code-transform setters (bit 5) is the same
+    // for all configurations of a case, because DWARF-on followed by
+    // transform-off is a different effective configuration than the reverse
+    // order, and the relations below compare configurations that differ in
+    // one switch only
     let case_hash = out.hash;
     let hist_of = move |bits: u8| -> u8 {
         if case_hash & 1 == 1 {
-            ((case_hash >> 8) as u8).wrapping_add(bits.wrapping_mul(7)) & 31
+            (((case_hash >> 8) as u8).wrapping_add(bits.wrapping_mul(7)) & 31) | (((case_hash >> 20) as u8 & 1) << 5)
         } else {
             0
         }
